@@ -14,4 +14,4 @@ def run(ctx):
                                               ("rejected inputs", "tl1_rejected", 50000), ("non-minimal string forms rejected", "rejected_string-medium-form", 200),
                                               ("non-zero paddings rejected", "rejected_string-nonzero-padding", 200), ("non-boolean Bool tags rejected", "rejected_bool-tag-not-boolean", 200),
                                               ("unknown constructor tags rejected", "rejected_constructor-tag-unknown", 200)],
-                           30, 200, count_keys=("tl1_inputs",), configs_quick=("tl2all", "tl1only"))
+                           30, 200, count_keys=("tl1_inputs",), configs_quick=("tl2all", "tl1only"), random_quick=3, random_thorough=30)
